@@ -491,6 +491,32 @@ impl Run {
                         continue;
                     }
                 }
+                // ThreadSanitizer: the two access stacks come first, then "Location is ..." and "Thread T.. created by"
+                // (whose stacks naturally name the harness). A race whose ACCESS stacks have no frame in the repository
+                // or the harness lies inside a dependency (crossbeam-epoch frees memory it protects with fences, which
+                // ThreadSanitizer does not model): not a verdict on the property.
+                if line.contains("WARNING: ThreadSanitizer") {
+                    let mut in_repo = false;
+                    let mut first_frame = String::new();
+                    for l2 in lines.iter().skip(n + 1).take(600) {
+                        let t = l2.trim_start();
+                        if t.starts_with("Thread T") || t.starts_with("Location is") || t.starts_with("SUMMARY:") || t.starts_with("Mutex M") {
+                            break;
+                        }
+                        if l2.contains("/repo/src/") || l2.contains("harness/src/") {
+                            in_repo = true;
+                            break;
+                        }
+                        if first_frame.is_empty() && t.starts_with("#1 ") {
+                            first_frame = t.split(" /").next().unwrap_or(t).to_string();
+                        }
+                    }
+                    if !in_repo {
+                        let stable: String = line.trim().split_whitespace().filter(|w| !w.starts_with("(pid=")).collect::<Vec<_>>().join(" ");
+                        third_party.push(format!("{} {}", stable, first_frame));
+                        continue;
+                    }
+                }
                 // context: the first following line that names a source location
                 let mut ctx = String::new();
                 for l2 in lines.iter().skip(n + 1).take(40) {
